@@ -312,7 +312,12 @@ def cross_scenarios(quick, seed, n=None, tag="cross"):
         if rnd.random() < 0.5:
             am.append({"addr": {"region": "app0"}, "len": regions[3]["len"] + rnd.choice([0, 0, 4096])})
         if nt and rnd.random() < 0.3:
-            am.append({"addr": {"thread_sp": rnd.randrange(nt), "off": 32}, "len": 64})
+            # (a region in a live frame of a thread whose stack pointer IS in its stack: a request for memory that does not exist
+            # makes the dump fail, as it must, and tells nothing else)
+            inside = [i for i in range(nt) if "sp_off" in threads[i]]
+            pick = rnd.randrange(nt)
+            if pick in inside or inside:
+                am.append({"addr": {"thread_sp": pick if pick in inside else inside[pick % len(inside)], "off": 32}, "len": 64})
         if am:
             w["app_memory"] = am
         if rnd.random() < 0.25:
